@@ -320,10 +320,21 @@ func checkC11(r *Run) {
 				}
 			}
 		}
+		// ... and so are occurrences whose Message.Field key is, as plain text, the tail of another field's path
+		// (`Tag.Label` vs `User.PriceTag.Label`)
+		for i, o := range occ {
+			for _, o2 := range occ {
+				if o2.Key != o.Key && strings.HasSuffix(o2.Path, o.Key) {
+					prio = append(prio, i)
+					break
+				}
+			}
+		}
 		for k := 0; k < perBase; k++ {
 			opt := fieldOptions[k%len(fieldOptions)]
 			o := occ[rnd.Intn(len(occ))]
-			if len(prio) > 0 && k%2 == 0 {
+			keyForm := (k/len(fieldOptions))%2 == 1
+			if len(prio) > 0 && (k%2 == 0 || (keyForm && k%3 != 2)) {
 				o = occ[prio[rnd.Intn(len(prio))]]
 			}
 			if opt == "exclude_fields" {
@@ -351,6 +362,31 @@ func checkC11(r *Run) {
 			cases = append(cases, v)
 			pairs = append(pairs, rt.Pair{A: base.Name, B: v.Name, PRF: baseName, Label: opt + "/" + form, ModelChecks: true})
 			total++
+		}
+		// every Message.Field key that is, as plain text, the tail of another field's path gets its own
+		// variants (the key must not reach that other field)
+		seenTail := map[string]bool{}
+		for _, o := range occ {
+			tail := false
+			for _, o2 := range occ {
+				if o2.Key != o.Key && strings.HasSuffix(o2.Path, o.Key) {
+					tail = true
+				}
+			}
+			if !tail || seenTail[o.Key] || len(seenTail) >= 3 {
+				continue
+			}
+			seenTail[o.Key] = true
+			for j, opt := range []string{"exclude_fields", "name_overrides", "sensitive_fields"} {
+				ve := m()
+				plain(ve)
+				applyOption(ve.Cfg, opt, o.Key, 700+j)
+				v := caseFrom(descgen.Rename(ve, fmt.Sprintf("%st%d%d", baseName, len(seenTail), j)))
+				v.Tags = append(v.Tags, opt, "message.field/textual-tail")
+				cases = append(cases, v)
+				pairs = append(pairs, rt.Pair{A: base.Name, B: v.Name, PRF: baseName, Label: opt + "/message.field-is-tail-of-another-path", ModelChecks: true})
+				total++
+			}
 		}
 		// layered edits: the base already configures a field that occurs at several paths under its
 		// Message.Field key; the variant adds an explicit empty list under ONE full path
